@@ -68,6 +68,19 @@ var c20families = []struct {
 	{"imports", map[string]string{
 		"m":   `module m { namespace "urn:m"; prefix m; import imp { prefix i; } revision 2020-01-01; uses i:g; container c { uses i:g; } leaf t { type i:td; } feature f; leaf ff { if-feature f; type string; } }`,
 		"imp": `module imp { namespace "urn:imp"; prefix imp; revision 2020-01-01; typedef td { type string { length "1..5"; } } grouping g { leaf gi { type td; } anydata ga { description "d"; } } }`}, "m"},
+	// two modules that state the same texts (patterns, ranges, enum names, musts) with different sub-statements: statements are objects of
+	// the module they are written in, whatever else the process has loaded
+	{"same-texts-plain", map[string]string{"m": `module m { namespace "urn:m"; prefix m; revision 2020-01-01;
+  leaf p { type string { pattern "[a-z]+"; length "1..5"; } } leaf r { type int32 { range "1..10"; } must "../p" ; } typedef td { type string { pattern "x.*"; } } leaf q { type td; } }`}, "m"},
+	{"same-texts-decorated", map[string]string{"m": `module m { namespace "urn:m"; prefix m; revision 2020-01-01;
+  leaf p { type string { pattern "[a-z]+" { modifier invert-match; error-message "no letters"; error-app-tag "tag"; } length "1..5" { error-message "short"; } } }
+  leaf r { type int32 { range "1..10" { error-message "small"; description "d"; } } must "../p" { error-message "needs p"; } } typedef td { type string { pattern "x.*" { modifier invert-match; } } } leaf q { type td; } }`}, "m"},
+}
+
+// c20facts: what the text of a family says and a dump of it therefore has to show, whatever was loaded before or meanwhile
+var c20facts = map[string][]string{
+	"same-texts-plain":     {`"error-message":"","inverted":false,"pattern":"[a-z]+"`, `"error-message":"","inverted":false,"pattern":"x.*"`},
+	"same-texts-decorated": {`"error-message":"no letters","inverted":true,"pattern":"[a-z]+"`, `"error-message":"","inverted":true,"pattern":"x.*"`},
 }
 
 func c20opener(mods map[string]string) func(string, string) (io.Reader, error) {
@@ -207,6 +220,11 @@ func (p c20) loads(c *core.Ctx, clock *opClock, G int, fam int) {
 			}
 			d, _ := walk.Dump(m)
 			ref[fmt.Sprintf("%d/%d", f, ft)] = walk.JSON(d)
+			for _, fact := range c20facts[c20families[f].name] {
+				if !strings.Contains(walk.JSON(d), fact) {
+					c.Violate("loads/module-shows-another-modules-statement/"+c20families[f].name, "family %s loaded after other modules does not show what its text says (%s)\ndump: %s", c20families[f].name, fact, head(walk.JSON(d), 1500))
+				}
+			}
 		}
 	}
 	for g := 0; g < G; g++ {
